@@ -375,7 +375,7 @@ def gSb (n : Nat) : List RawC :=
 theorem golomb_eq (n : Nat) (sb : Bool) : golombProblem n sb =
     mkProblem (gShr n) (idVars (gShr n).length)
       (gEqs n ++ [ ⟨List.range (gShr n).length, .alldifferent, []⟩ ] ++ gRed n ++
-        (if sb then gSb n else [])) := rfl
+        (if sb && decide (2 < n) then gSb n else [])) := rfl
 
 theorem gShr_length (n : Nat) : (gShr n).length = triangular (n - 1) := by
   rw [gShr, List.length_map, gPairs_length]
@@ -491,7 +491,7 @@ theorem sol_golomb (n : Nat) (hn : 2 ≤ n) (sb : Bool) (σ : List Int) :
       σ.Nodup ∧
       (∀ i j, i < j → j < n → j - i < n - 1 →
         getI σ (pairPos n i j) + ((triangular (n - 1 - (j - i)) : Nat) : Int) ≤ getI σ (pairPos n 0 (n - 1))) ∧
-      (sb = true → getI σ (pairPos n 0 1) < getI σ (pairPos n (n - 2) (n - 1))) := by
+      (sb = true → 2 < n → getI σ (pairPos n 0 1) < getI σ (pairPos n (n - 2) (n - 1))) := by
   rw [golomb_eq, sol_mk, inBox_gShr (by omega), gShr_length]
   simp only [List.mem_append, or_imp, forall_and, List.mem_singleton, forall_eq]
   rw [gEqs_iff, gRed_iff hn]
@@ -501,12 +501,14 @@ theorem sol_golomb (n : Nat) (hn : 2 ≤ n) (sb : Bool) (σ : List Int) :
     rw [vals_id _ _ (fun v hv => List.mem_range.1 hv)]
     conv => lhs; arg 3; rw [← hl, map_getI_range]
     rfl
-  have hsb : (∀ c ∈ (if sb = true then gSb n else []),
+  have hsb : (∀ c ∈ (if (sb && decide (2 < n)) = true then gSb n else []),
         rel c.alg c.params (vals (idVars (triangular (n - 1))) σ c.vars)) ↔
-      (sb = true → getI σ (pairPos n 0 1) < getI σ (pairPos n (n - 2) (n - 1))) := by
+      (sb = true → 2 < n → getI σ (pairPos n 0 1) < getI σ (pairPos n (n - 2) (n - 1))) := by
     cases sb
     · simp
-    · simp only [if_true, gSb_iff hn, true_implies]
+    · by_cases h2 : 2 < n
+      · simp only [Bool.true_and, decide_eq_true_eq, h2, if_true, gSb_iff hn, true_implies]
+      · simp [h2]
   rw [hsb]
   constructor
   · rintro ⟨⟨hl, hb⟩, ⟨⟨h1, h2⟩, h3⟩, h4⟩
@@ -646,11 +648,12 @@ theorem C20_golomb (n : Nat) (hn : 2 ≤ n) (σ : List Int) :
 
 /-- C20 (Golomb ruler, symmetry breaking): the symmetry-breaking model adds exactly the constraint
     `d(0, 1) < d(n − 2, n − 1)` (first gap smaller than last gap) -/
-theorem C20_golomb_sb (n : Nat) (hn : 2 ≤ n) (σ : List Int) :
+theorem C20_golomb_sb (n : Nat) (hn : 3 ≤ n) (σ : List Int) :
     Sol (golombProblem n true) σ ↔
       Sol (golombProblem n false) σ ∧ getI σ (pairPos n 0 1) < getI σ (pairPos n (n - 2) (n - 1)) := by
-  rw [sol_golomb n hn, sol_golomb n hn]
-  simp only [true_implies, Bool.false_eq_true, false_implies, and_true]
+  rw [sol_golomb n (by omega), sol_golomb n (by omega)]
+  have h2 : 2 < n := by omega
+  simp only [true_implies, Bool.false_eq_true, false_implies, and_true, h2]
   constructor
   · rintro ⟨h1, h2, h3, h4, h5⟩
     exact ⟨⟨h1, h2, h3, h4⟩, h5⟩
@@ -658,9 +661,17 @@ theorem C20_golomb_sb (n : Nat) (hn : 2 ≤ n) (σ : List Int) :
     exact ⟨h1, h2, h3, h4, h5⟩
 
 /-- hence every solution of the symmetry-breaking model is the distance table of a Golomb ruler -/
+theorem C20_golomb_sb_two (σ : List Int) : Sol (golombProblem 2 true) σ ↔ Sol (golombProblem 2 false) σ := by
+  rw [sol_golomb 2 (by decide), sol_golomb 2 (by decide)]
+  simp
+
 theorem C20_golomb_sb_valid (n : Nat) (hn : 2 ≤ n) (σ : List Int)
-    (h : Sol (golombProblem n true) σ) : ValidGolomb n σ :=
-  (C20_golomb n hn σ).1 ((C20_golomb_sb n hn σ).1 h).1
+    (h : Sol (golombProblem n true) σ) : ValidGolomb n σ := by
+  rcases Nat.lt_or_ge 2 n with h3 | h3
+  · exact (C20_golomb n hn σ).1 ((C20_golomb_sb n h3 σ).1 h).1
+  · have : n = 2 := by omega
+    subst this
+    exact (C20_golomb 2 hn σ).1 ((C20_golomb_sb_two σ).1 h)
 
 /-- the optimal ruler `0, 1, 4, 6`: `d01, d02, d03, d12, d13, d23` -/
 theorem validGolomb_4 : ValidGolomb 4 [1, 4, 6, 3, 5, 2] := by
